@@ -22,8 +22,36 @@ func ArrSort(elem Sort) Sort { return Sort("(Array Int " + string(elem) + ")") }
 
 func (s Sort) IsArr() bool { return strings.HasPrefix(string(s), "(Array") }
 func (s Sort) Elem() Sort {
-	str := string(s)
-	return Sort(strings.TrimSuffix(strings.TrimPrefix(str, "(Array Int "), ")"))
+	_, el := s.arrParts()
+	return el
+}
+
+// ArrSortK is an array sort with an arbitrary index sort (used for modelled Go maps: key sort -> value sort).
+func ArrSortK(key, elem Sort) Sort { return Sort("(Array " + string(key) + " " + string(elem) + ")") }
+
+// Key is the index sort of an array sort.
+func (s Sort) Key() Sort {
+	k, _ := s.arrParts()
+	return k
+}
+
+func (s Sort) arrParts() (Sort, Sort) {
+	str := strings.TrimSuffix(strings.TrimPrefix(string(s), "(Array "), ")")
+	// the index sort is the first token (balanced parentheses)
+	depth := 0
+	for i := 0; i < len(str); i++ {
+		switch str[i] {
+		case '(':
+			depth++
+		case ')':
+			depth--
+		case ' ':
+			if depth == 0 {
+				return Sort(str[:i]), Sort(str[i+1:])
+			}
+		}
+	}
+	return SInt, Sort(str)
 }
 
 // Term is a hash-consed SMT term.
